@@ -26,7 +26,8 @@ def main():
         qs = [q for q in qs if a.only in q.name]
     rc = fw.run_property(a.pid, a.tier, qs, level=getattr(mod, 'LEVEL', 'model_checking'),
                          assumptions=getattr(mod, 'ASSUMPTIONS', ()), trusted=getattr(mod, 'TRUSTED', ()), keep=a.keep,
-                         partial=bool(a.only), extra=getattr(mod, 'extra_checks', None))
+                         partial=bool(a.only), extra=getattr(mod, 'extra_checks', None),
+                         workers=(getattr(mod, 'WORKERS', {}) or {}).get(a.tier))
     return rc
 
 
